@@ -622,8 +622,8 @@ def corpus_files():
     for f in fs:
         with open(f, "rb") as fh:
             out.append(fh.read().decode("latin-1"))
-    out.append("ra { s1 one; s2 \"two\"; i1 0x10; b1 off; iv 1h; vol 2M; fl 2.5; l1 (p, q, r); l2 (z); ad \"::2\" 8080; sub { s3 x; un 1 } ; extra (1) };\n"
-               "top level;\nrb { s1 bee; obj { k v } };\nstray { a b; c (d) };\n")
+    out.append("ra { s1 one; s2 \"two\"; i1 0x10; b1 off; iv 1h; vol 2M; fl 2.5; l1 (p, q, r); l2 (z); ad \"::2\" 8080; sub { s3 x; un 1 } ; extra (1); };\n"
+               "top level;\nrb { s1 bee; obj { k v }; };\nstray { a b; c (d); };\n")
     out.append("ra { s1 \"\\x41\\n\"; l1 (); ad host svc; }\nrb { }\n")
     return out
 
